@@ -287,6 +287,16 @@ func (c *Ctx) Finish() int {
 		fmt.Printf("KNOWN-FINDING: property=%s %s: %s (%d scenarios; e.g. %s)\n", c.ID, s, c.known[s].Description, c.knownHits[s], trunc(c.knownEx[s], 300))
 		masked[s] = c.knownHits[s]
 	}
+	if len(c.violSeen) > 0 {
+		vs := make([]string, 0, len(c.violSeen))
+		for s := range c.violSeen {
+			vs = append(vs, s)
+		}
+		sort.Strings(vs)
+		for _, s := range vs {
+			fmt.Printf("violation-class %s: %d scenarios\n", s, c.violSeen[s])
+		}
+	}
 	cov := map[string]any{
 		"states": c.States, "transitions": c.Transitions, "traces_validated_against_impl": c.Traces,
 		"evaluations": c.Evals, "distinct_nontrivial": c.Nontrivial, "rule": c.Rule, "samples": c.Samples,
